@@ -139,7 +139,7 @@ func (m *MergeExp) filter(t Type, lookup *TypeLookup) (Exp, error) {
 					FormatExp(m, "")),
 			}
 		}
-		innerType = t.Elem
+		innerType = lookup.GetArray(t, -1)
 	case *TypedMapType:
 		if m.MergeOver.CallMode() == ModeArrayCall {
 			return m, &IncompatibleTypeError{
